@@ -6,10 +6,13 @@ first=${1:-100}; count=${2:-10}; tier=${3:-quick}
 dir=${SWEEP_DIR:-/var/tmp/vsim-sweep}
 mkdir -p $dir; cp /verif/KNOWN_FINDINGS.jsonl $dir/
 cd /verif
+# build once, then run a private copy of the binary: later rebuilds do not disturb the sweep
+./check build > /dev/null 2>&1 || { echo "build failed"; exit 2; }
+cp /verif/sim/target/release/vsim $dir/vsim
 bad=0; total=0
 for ((sd=first; sd<first+count; sd++)); do
   for p in C01 C02 C03 C04 C05 C06 C07 C08 C09 C10 C11 C12 C13 C14 C15 C16 C17; do
-    out=$(VERIF_SEED=$sd VERIF_DIR=$dir ./check_mut $p $tier 2>&1); rc=$?
+    out=$(VERIF_SEED=$sd VERIF_DIR=$dir $dir/vsim check --property $p --tier $tier --jobs ${VERIF_JOBS:-16} 2>&1); rc=$?
     total=$((total+1))
     if [ $rc -ne 0 ]; then bad=$((bad+1)); echo "seed=$sd $p rc=$rc $(echo "$out" | grep -E "VIOLATION|class:|HARNESS" | head -4 | tr '\n' ' ' | cut -c1-400)"; fi
   done
